@@ -38,10 +38,10 @@ def opOf (j : Json) : R Op := do
   | "dict" => pure (.writeDict (← chunkOf (← field j "data")))
   | k => throw s!"unknown op {k}"
 
-/-- memory whose first bytes are `hdr`, 0xA5 elsewhere (the harness pre-fills the data region with 0xA5) -/
-def memOf (hdr : List UInt8) : Mem :=
-  let a := hdr.toArray
-  fun i => a.getD i 0xA5
+/-- memory whose first bytes are the given array, 0xA5 elsewhere (the harness pre-fills the data region with 0xA5).
+    The array is built once by the caller: a definition of function type is compiled with the index as an argument, so a
+    `toArray` inside it would run on every byte read. -/
+def memOfArr (a : Array UInt8) (i : Nat) : UInt8 := a.getD i 0xA5
 
 def handle (fn : String) (a : Json) : R Json := do
   match fn with
@@ -64,7 +64,8 @@ def handle (fn : String) (a : Json) : R Json := do
     let total ← natF a "total"
     let hdr ← bytesF a "header"
     let op ← opOf (← field a "op")
-    let m := memOf hdr
+    let arr := hdr.toArray
+    let m : Mem := memOfArr arr
     let before := readCount m
     let (m', out) := cStep total m op
     let t' := readAllocs m'
@@ -73,6 +74,19 @@ def handle (fn : String) (a : Json) : R Json := do
       | .region o l, some _ => ofBytes (readBytes m' o l)
       | _, _ => Json.null
     pure (obj [("out", outJson out), ("header", ofBytes (readBytes m' 0 n)), ("table", tableJson t'), ("stored", stored)])
+  | "cwin" =>
+    -- byte-level step on a big table: {total, header: hex prefix of the segment, op, lo, n} → out, table (table-level
+    -- step of the decoded table), and the bytes [lo, lo+n) of the model's memory after the step (read through the
+    -- closure chain: cheap for a small window whatever the table size)
+    let total ← natF a "total"
+    let hdr ← bytesF a "header"
+    let op ← opOf (← field a "op")
+    let lo ← natF a "lo"
+    let n ← natF a "n"
+    let arr := hdr.toArray
+    let m : Mem := memOfArr arr
+    let (m', out) := cStep total m op
+    pure (obj [("out", outJson out), ("table", tableJson (tStep total (readAllocs m) op)), ("window", ofBytes (readBytes m' lo n))])
   | "encode" =>
     -- `_write_allocs` into a zero header: {table} → hex of [0, tableBase + entrySize·len)
     let t ← tableOf (← field a "table")
@@ -80,7 +94,8 @@ def handle (fn : String) (a : Json) : R Json := do
     pure (ofBytes (readBytes m 0 (tableBase + entrySize * t.length)))
   | "decode" =>
     let hdr ← bytesF a "header"
-    pure (tableJson (readAllocs (memOf hdr)))
+    let arr := hdr.toArray
+    pure (tableJson (readAllocs (memOfArr arr)))
   | "init" =>
     let total ← natF a "total"
     pure (ofBytes (readBytes (initHeader (fun _ => 0) total) 0 tableBase))
